@@ -20,6 +20,7 @@ import (
 	"flag"
 	"fmt"
 	"os"
+	"strings"
 	"sync"
 
 	"pvharness/pvpeg"
@@ -46,6 +47,7 @@ func main() {
 	k := flag.Int("k", 3, "layouts per grammar")
 	pigeon := flag.String("pigeon", "/verif/build/bin/pigeon-verif", "pigeon binary built with -tags verif")
 	includeKnown := flag.Bool("include-known", false, "lift the known-defect avoidance")
+	lift := flag.String("lift", "", "lift single avoidances: comma-separated list of "+strings.Join(pvpeg.AvoidNames(), ","))
 	out := flag.String("out", "/tmp/pvt.pvfront.out", "directory for failing inputs")
 	jobs := flag.Int("j", 16, "parallel workers (one server process each)")
 	flag.Parse()
@@ -53,9 +55,10 @@ func main() {
 		fmt.Fprintln(os.Stderr, "usage: pvfront [-seed S] [-n N] [-k K] [-pigeon BIN] [-include-known] [-out DIR] [-j J]")
 		os.Exit(2)
 	}
-	av := pvpeg.Avoid{}
-	if *includeKnown {
-		av = pvpeg.IncludeKnown()
+	av, err := pvpeg.ParseAvoid(*includeKnown, *lift)
+	if err != nil {
+		fmt.Fprintln(os.Stderr, "pvfront:", err)
+		os.Exit(2)
 	}
 	rep := pvpeg.NewReport("pvfront", *seed, *out)
 	items := make([]*item, *n)
